@@ -90,6 +90,7 @@ theorem de_sim (h : RdSim R rd₁ rd₂) :
     · rfl
     · refine SimF.bind ?_ ?_ s₁ s₂ hR
       · apply deVec_sim h
+        unfold deEntry
         apply SimF.bind (iha st)
         intro x; dsimp only
         exact SimF.map' (ihb st) _ _ (by sim_map)
